@@ -898,7 +898,15 @@ func checkC18(c *Check) {
 						return
 					}
 				}
-				for _, s := range b.Succs {
+				ifi, isIf := b.Instrs[len(b.Instrs)-1].(*ssa.If)
+				for k, s := range b.Succs {
+					if isIf && len(b.Succs) == 2 && cell != nil {
+						// the variable still holds the (non-nil) end-of-input error: a nil test of it has one outcome
+						a := atomOf(ifi.Cond, k == 0)
+						if ld, isL := a.V.(*ssa.UnOp); a.Kind == "errnil" && a.Val && isL && ld.Op == token.MUL && ld.X == cell {
+							continue
+						}
+					}
 					walk(s)
 				}
 			}
